@@ -2,5 +2,6 @@ SPECIFICATION Spec
 CONSTANTS
   MaxErrs = 3
   Faulty <- MCTrue
+  StrictSink <- MCFalse
 INVARIANTS TypeOK ExitIffSuccess
 CHECK_DEADLOCK FALSE
